@@ -868,8 +868,9 @@ DESCRIPTION
 int
 HXPendaccess(accrec_t *access_rec)
 {
-    filerec_t *file_rec; /* file record */
-    int        ret_value = SUCCEED;
+    filerec_t *file_rec;             /* file record */
+    int        close_failed = FALSE; /* the external file could not be closed */
+    int        ret_value    = SUCCEED;
 
     /* validate argument */
     if (access_rec == NULL)
@@ -880,9 +881,10 @@ HXPendaccess(accrec_t *access_rec)
     if (BADFREC(file_rec))
         HGOTO_ERROR(DFE_ARGS, FAIL);
 
-    /* close the file pointed to by this access rec */
+    /* close the file pointed to by this access rec; a failure is reported
+       once the element has been let go of all the same */
     if (HXPcloseAID(access_rec) == FAIL)
-        HGOTO_ERROR(DFE_CANTCLOSE, FAIL);
+        close_failed = TRUE;
 
     /* update file and access records */
     if (HTPendaccess(access_rec->ddid) == FAIL)
@@ -893,6 +895,11 @@ HXPendaccess(accrec_t *access_rec)
 
     /* free the access record */
     HIrelease_accrec_node(access_rec);
+
+    if (close_failed) {
+        access_rec = NULL; /* released already */
+        HGOTO_ERROR(DFE_CANTCLOSE, FAIL);
+    }
 
 done:
     if (ret_value == FAIL) { /* Error condition cleanup */
@@ -932,11 +939,14 @@ HXPcloseAID(accrec_t *access_rec)
        If no more references to that, free the record */
 
     if (--(info->attached) == 0) {
-        if (info->file_open)
-            HI_CLOSE(info->file_external);
+        /* closing the external file may be what brings written data to it */
+        if (info->file_open && HI_CLOSE(info->file_external) == FAIL)
+            ret_value = FAIL;
         free(info->extern_file_name);
         free(info);
         access_rec->special_info = NULL;
+        if (ret_value == FAIL)
+            HERROR(DFE_CANTCLOSE);
     }
 
     return ret_value;
